@@ -159,10 +159,10 @@ def all_inf_batch(tr):
     return None
 
 
-RESUME_CLAUSES = {"RW_Iter", "RW_Monotone", "CM_PrefixSame", "CM_Append", "CM_OnePerKey", "ME_Calls", "MP_Calls", "CallsExact",
+RESUME_CLAUSES = {"TM_CallsExact", "RW_Iter", "RW_Monotone", "CM_PrefixSame", "CM_Append", "CM_OnePerKey", "ME_Calls", "MP_Calls", "CallsExact",
                   "TM_NearOne", "TM_ESS", "TM_Evidence", "NoRaise"}
 UNTRACKED_CLAUSES = {"RS_WholeCopies", "MP_Coherent", "MB_SameSlots", "SW_PropCoherent", "SW_Update", "ME_Slots", "CM_Coherent", "CM_Append",
-                     "MP_Calls", "MP_Evals", "SW_Evals", "ME_Calls", "CallsExact", "PO_Rows"}
+                     "MP_Calls", "MP_Evals", "SW_Evals", "ME_Calls", "CallsExact", "PO_Rows", "TM_CallsExact"}
 
 
 def attribute(ck, pid, traces, fails, extra_props=()):
